@@ -422,6 +422,43 @@ def r3(ctx: Ctx) -> None:
                     continue  # an attribute of a local object (`queued.append_files`): judged through its root variable
                 inside = [d for d in defs if any(fr.kind == "loop" and fr.node is loop_ast for fr in g.nodes[d].frames)]
                 ok = bool(defs) and len(inside) == len(defs)
+                if defs and not ok:
+                    # attempt-INVARIANT values may be computed once: what is derived from the queued operations alone (the
+                    # partition of self._operations into files / paths / cutoff) is the same on every attempt.  Anything that reads
+                    # table state, the clock or a random source is not.
+                    PURE = {"int", "max", "min", "list", "set", "dict", "tuple", "frozenset", "len", "sorted", "isinstance", "str", "bool",
+                            "extend", "update", "append", "add", "get", "setdefault", "items", "values", "keys", "lstrip", "groupby", "itemgetter"}
+                    sl3 = ctx.slicer(f)
+                    inv = True
+                    for d in defs:
+                        if d in inside:
+                            continue
+                        dn = g.nodes[d]
+                        rhs = dn.ast.value if isinstance(dn.ast, ast.Assign) else None
+                        if d == g.entry or rhs is None:
+                            inv = False
+                            break
+                        org = sl3.origins(rhs, d)
+                        for nm2 in org["names"]:
+                            if nm2 == "self" or nm2.startswith("self._operations") or "." not in nm2:
+                                continue
+                            inv = False
+                        if org["params"] - {"self"}:
+                            inv = False
+                        for c_ in org["calls"]:
+                            if not isinstance(c_, ast.Call):
+                                continue
+                            leaf = (dotted(c_.func) or (c_.func.attr if isinstance(c_.func, ast.Attribute) else "?")).split(".")[-1]
+                            try:
+                                cal = ctx.prog.resolve_call(c_, f)
+                            except Exception:
+                                cal = None
+                            rec = cal is not None and cal.kind == "ctor" and cal.cls is not None and (cal.cls.is_dataclass or any(
+                                b.rsplit(".", 1)[-1] == "NamedTuple" for b in cal.cls.base_names))
+                            helper = cal is not None and cal.kind == "func" and cal.funcs and all(ctx.prog.is_transparent(t_) for t_ in cal.funcs)
+                            if leaf not in PURE and not rec and not helper:
+                                inv = False
+                    ok = inv
                 ctx.ob("C01.R3", f, f"argument `{nm}` of commit-point call is defined inside the retry iteration", cp, ok,
                        f"no value computed before the loop / in an earlier iteration flows into a later attempt "
                        f"(defs at lines {[g.nodes[d].lineno for d in defs]})", text=nm + "@" + (cp.callee.funcs[0].name if cp.callee and cp.callee.funcs else "?"))
@@ -466,6 +503,11 @@ def r3(ctx: Ctx) -> None:
         defs = [n for n in cg.nodes if n.kind == "stmt" and isinstance(n.ast, (ast.Assign, ast.AnnAssign))
                 and any(isinstance(t, ast.Name) and t.id == var for t in (n.ast.targets if isinstance(n.ast, ast.Assign) else [n.ast.target]))]
         ok = len(defs) == 1 and need in norm_text(defs[0].ast.value)
+        if len(defs) == 1 and not ok:
+            # through a helper analysed in place (`snapshot_id = _new_snapshot_id()`): its return expressions decide
+            from .common import resolve_value
+            srcs = [x for x, _a in resolve_value(ctx, cf, defs[0].ast.value, defs[0].id)]
+            ok = bool(srcs) and all(x is not None and need in norm_text(x) for x in srcs)
         ctx.ob("C01.R3", cf, f"single definition of {kw} per attempt", defs[0] if defs else None, ok,
                f"{kw} is derived once per attempt from {need}", text=kw)
 
